@@ -9,7 +9,8 @@ Not at full strength (kept visible below, listed in harness/props/c17.py NOT_PRO
     (`butterfly_negative_witness`, `butterfly_neg_of_low_mid`).  Proved for K1 + K3 ≤ 2 K2.
   * `log_identity_agree`: for Performances / MaximumOfPerformances under the explicit hypothesis
     exp(x − log s) = exp(x)/s (a theorem for the real pair, `real_exp_sub_log`; no strictly monotone ℚ → ℚ pair has
-    it); NthDefaultTimes is excluded because its identity implementation always raises (`nthDefault_identity_raises`).
+    it).  NthDefaultTimes is covered since 6ac83d2; `nthDefault_identity_raises` / `nthDefault_disagree_witness` are about the
+    pre-fix implementation `undIdOld`.
 -/
 import RpylibModel.Model.Payoff
 import RpylibModel.Proofs.Lemmas.C17Basic
@@ -357,16 +358,15 @@ theorem maxList_exp (E : ExpLog) (hE : InversePair E) (l : List Rat) :
   | cons a l => simp only [List.map_cons, maxList, Option.map_some]; rw [foldl_rmax_exp E hE]
 
 /-- which underlyings the agreement theorem covers, with the side conditions it needs: positive thresholds for the
-indicators; the homomorphism property for the performance underlyings (see the header); `NthDefaultTimes` not at all -/
+indicators; the homomorphism property for the performance underlyings (see the header) -/
 def Agreeable (E : ExpLog) : UnderlyingT → Prop
   | .indicators thr => ∀ t ∈ thr, 0 < t
   | .performances s0 => ∀ s ∈ s0, ∀ x, E.exp (x - E.log s) = E.exp x / s
   | .maxPerf s0 => ∀ s ∈ s0, ∀ x, E.exp (x - E.log s) = E.exp x / s
-  | .nthDefault _ _ => False
   | _ => True
 
-/- full statement: `∀ U x, undId E U (x.mapExp E) = undLog E U x` — false for `NthDefaultTimes`, open for the performance
-underlyings without the homomorphism hypothesis. -/
+/- full statement: `∀ U x, undId E U (x.mapExp E) = undLog E U x` — open for the performance underlyings without the
+homomorphism hypothesis. -/
 /-- **identity and log representations give the same underlying value for the same spot path**: evaluating the class'
 identity implementation on the spot path `exp(x)` equals evaluating its log implementation on the log path `x` -/
 theorem log_identity_agree (E : ExpLog) (hE : InversePair E) (U : UnderlyingT) (hU : Agreeable E U) (x : Path)
@@ -428,13 +428,22 @@ theorem log_identity_agree (E : ExpLog) (hE : InversePair E) (U : UnderlyingT) (
         cases as[k - 1]? with
         | none => rfl
         | some a => simp only [Option.map_some, map_log_exp E hE]
-  | nthDefault as k => exact absurd hU id
+  | nthDefault as k =>
+    simp only [undId, undLog, Path.mapExp, List.length_map]
+    by_cases hf : x.flat = true
+    · simp [hf]
+    · simp only [hf]
+      rw [List.zipWith_map_left]
+      have : (fun (r : List Rat) (a : Rat) => defaultTimeRow a x.times ((r.map E.exp).map E.log))
+          = (fun r a => defaultTimeRow a x.times r) := by
+        funext r a; rw [map_log_exp E hE]
+      rw [this]
 
-/-- `NthDefaultTimes` in the identity representation raises on every path (M mirrors underlying.py:488-494) … -/
+/-- before 6ac83d2 `NthDefaultTimes` in the identity representation raised on every path (`undIdOld`) … -/
 theorem nthDefault_identity_raises (E : ExpLog) (as : List Rat) (k : Nat) (p : Path) :
-    undId E (.nthDefault as k) p = .err := rfl
+    undIdOld E (.nthDefault as k) p = .err := rfl
 
-/-- … while the log representation of the same spot path has a value: the agreement fails for this class -/
+/-- … while the log representation of the same spot path had (and has) a value: the agreement failed for this class -/
 theorem nthDefault_disagree_witness :
     undLog ratExpLog (.nthDefault [-1] 1) ⟨[0, 1], [[0, 0]], [[0, -2]], false⟩ = .time (some 1) := by
   have h : defaultTimeRow (-1) [0, 1] [0, -2] = some 1 := by decide +kernel
